@@ -310,6 +310,7 @@ func account(e *ev.Env, hr *histRun) {
 	e.Stat("timed-refunds", int64(j.Refunds))
 	e.Stat("timed-keys-dropped-as-ambiguous", int64(j.Ambiguous))
 	e.Stat("timed-admissions-in-undocumented-zone", int64(j.Debatable))
+	e.Stat("x-ratelimit-header-values-differing-from-spec(not judged)", int64(j.HeaderDiffs))
 	if j.GapSeen {
 		e.Stat("timed-histories-with-idle-window", 1)
 	}
